@@ -10,6 +10,7 @@ genuine datagram must still advance the handshake.  Trust graphs: all relations 
 (passwords and explicit key pairs): peers exactly when trust is mutual.  TLC judges every record."""
 import os
 import vplib as V
+from checks import cloudcommon
 from checks import noderuns
 
 PID = "C01"
@@ -70,6 +71,7 @@ def run(tier, out):
         "self_test": st,
         "oracle_applied_in": "harness per member, TLC per family / trust record",
     }
+    cloudcommon.part(PID, tier, out, cov)
     return out.finish("model_checking", cov, assumptions=[
         "Ed25519 / SHA-256 are not attacked: 'not produced with a trusted key' is realised as alteration of genuine datagrams and signing with other keys",
         "a replayed verbatim genuine datagram verifies by construction; what it may cause is bounded by C05 / C09"])
